@@ -11,8 +11,10 @@ IMPORTS = ["Model.Schema", "Model.Convert", "Model.ConvertCases", "Model.RoundTr
 TIMPORTS = ["Model.Schema", "Model.Convert", "Model.Scalars", "Model.PyDecimal", "Model.Typed", "Model.ConvertCases", "Model.TypedCases", "Gen.SchemaGen", "Gen.SchemaS", "Gen.TypedGen"]
 PARTIAL = ["proved: the tree-level round trip (roundtrip_tree, RoundTrip1-6) and its composition with the wire theorem of the Sgml/Serialize engine (wire_roundtrip_closed / "
            "wire_roundtrip_unclosed: to_etree -> serializer text -> tokenizer + tree builder -> from_etree returns the same instance, plain and pretty-printed); the hypothesis "
-           "conv (escape (unconv v)) = Some v on element values is C09/C10's subject; the header + byte encoding around the body (C05/C12) is not restated inside these theorems: "
-           "the complete file round trip is exercised on the implementation for every class x 6 wire forms x header versions",
+           "conv (escape (unconv v)) = Some v on element values is C09/C10's subject; file_roundtrip_v2 / file_roundtrip_v1 / client_bytes_roundtrip_v2 / _v1 compose these with the header engine's "
+           "parse_header_exact theorems into one statement over the BYTES of a file (any tolerated header layout ++ encoded body -> parse_header -> tokenizer -> tree builder -> from_etree "
+           "gives the header and the same instance); lone surrogates in the text are excluded there (scalar_text); "
+           "the complete file round trip is also exercised on the implementation for every class x 6 wire forms x header versions",
            "the SGML form without end tags is proved for trees without empty aggregates (recorded finding) and without a data element closing an aggregate of its own name"]
 MANIFEST = {
     "engine": "Schema",
